@@ -111,12 +111,13 @@ def gen_case(r, res):
     """One structured stream. Returns (n, body bytes, tags)."""
     tags = set()
     win = r.choice([1, 2, 2, 3, 3, 4, 4, 5, 6, 7, 8, 9, 11, 15, 23])   # provisional window, n is fixed below
+    small = r.random() < 0.5          # short streams: small sufficient look-backs
     clk = r.randrange(0, 4)
     evs = [OHX(clk)]
     clocks = [clk]                 # clocks of everything so far, as emitted
     tag = 0
     for seg in range(r.randrange(1, 5)):
-        for _ in range(r.choice([0, 0, 1, 2, 3, 5, 8])):
+        for _ in range(r.choice([0, 0, 1, 1, 2] if small else [0, 0, 1, 2, 3, 5, 8])):
             clk += r.choice([0, 0, 1, 1, 2, 5])
             tag += 1
             evs.append(B(clk, r, tag=tag))
@@ -124,7 +125,7 @@ def gen_case(r, res):
         clk += r.choice([0, 1, 2, 10])
         evs.append(ev_bytes(clk, "OU[", b"" if r.random() < 0.9 else b"mk"))
         clocks.append(clk)
-        cnt = r.choice([0, 1, 1, 2, 2, 3, 4, 6, 9])
+        cnt = r.choice([0, 1, 1, 1, 2, 3] if small else [0, 1, 1, 2, 2, 3, 4, 6, 9])
         if cnt:
             srt = sorted(clocks)
             # how far back (in events of the sorted prefix) the region reaches:
@@ -306,7 +307,7 @@ def check(res, tier, replay=None):
             w = [(0, "OHx"), (1, "OU["), (2, "OB."), (3, "OB."), (4, "OB."), (20, "OU]"), (21, "OU["),
                  (10, "OB."), (11, "OB."), (12, "OB."), (22, "OU]"), (30, "OHe")]
             cases.append((7, b"".join(OHX(c) if m == "OHx" else ev_bytes(c, m) for (c, m) in w), {"corpus"}))
-            for _ in range(450 if tier == "quick" else 12000):
+            for _ in range(2500 if tier == "quick" else 30000):
                 cases.append(gen_case(r, res))
             if tier == "thorough":
                 cases += list(exhaustive_cases(4, (1, 2, 3), (2, 3, 4, 5)))
@@ -349,11 +350,10 @@ def check(res, tier, replay=None):
 
             def viol(key, text):
                 nonlocal found
-                found = True
-                res.violation(key, text, canon + f"\n# model: {' '.join(mo[:2] + mo[3:])}\n# impl: rc={im['rc1']} "
+                found = res.violation(key, text, canon + f"\n# model: {' '.join(mo[:2] + mo[3:])}\n# impl: rc={im['rc1']} "
                               f"rc-c={im['rcc']} rc2={im['rc2']} emu={im['emu']}\n# stderr: {im['err1'][-600:]!r}\n"
                               f"# impl stream.obs body after: {hx(im['obs1'][8:])}\n"
-                              f"# replay: checks/check.py C16 --replay <this file>")
+                              f"# replay: checks/check.py C16 --replay <this file>") or found
 
             evs, trunc = decode(body)
             nv = DEFAULT_N if n is None else n
